@@ -4,7 +4,8 @@
 
   * the permission check on a read-only regular file, closed form (`run_fixPermissions_readonly`, `roEvents`); `make_writable`
     (`run_makeWritable_fix`); `write_patched_result_to_file` for a read-only target (`run_writePatchedResult_readonly`,
-    `roResultOps`: `chmod (m ||| writeMask)`, `creat`, `write`, `chmod m`); `refuse_to_patch`, closed form
+    `roResultOps`: `chmod (m ||| writeMask)`, `creat`, `write`, `chmod m`; with a backup `run_writePatchedResult_readonly_backup`,
+    `roBackupOps`: `rename`, `creat`, `write`, `chmod m` — no `chmod` before, the backup keeps the mode); `refuse_to_patch`, closed form
     (`run_refuseToPatch_new`), `allRejectBytes` for unified rejects (`allRejectBytes_unified`);
   * `-D`: `GoodW`, `SymOk`, `defineLoop_good`, `writeDefineHunk_good` (what `write_define_hunk` writes is LF-plain when the file,
     the patch and the four directive lines are), `finishHunk_define_full`, `applyRest_define_full`, `applyPatch_define_full`
@@ -46,7 +47,7 @@ theorem run_fixPermissions_readonly (o : Options) {s : DState} {p b : Bytes} {m 
     rfl
   · rfl
 
-/-- `make_writable` when a fix is due: one `chmod` that adds the write bits -/
+/-- `make_writable` when a fix is due and the file is there: one `chmod` that adds the write bit of the owner -/
 theorem run_makeWritable_fix {s : DState} {p b : Bytes} {m0 : Nat} (perm : PermResult) (m : Nat)
     (hnf : perm.needFix = true) (hperm : perm.oldPerms = some m) (hcwd : s.cwd = [])
     (h : s.fs.lookup p = some (.file b m0)) (hf : s.faultAt = none) :
@@ -54,11 +55,20 @@ theorem run_makeWritable_fix {s : DState} {p b : Bytes} {m0 : Nat} (perm : PermR
       (.ok (), { s with fs := s.fs.set p (.file b (m ||| writeMask)), trace := s.trace ++ [.chmod p (m ||| writeMask)],
                         opCount := s.opCount + 1 }) := by
   unfold makeWritable
-  rw [hnf, hperm]
-  simp only [if_true]
+  rw [run_bind, run_fsExists_file hcwd h]
+  simp only [hnf, hperm, Bool.and_self, if_true]
   have := Modes.run_opChmod_file (p := p) (s := s) (m ||| writeMask) (by rw [absPath_nil hcwd]; exact h) hf
   rw [absPath_nil hcwd] at this
   exact this
+
+/-- `make_writable` when the file is not there (any more: it has just been moved to its backup name): nothing happens -/
+theorem run_makeWritable_gone {s : DState} {p : Bytes} (perm : PermResult) (hcwd : s.cwd = [])
+    (h : s.fs.lookup p = none) : (makeWritable perm p).run s = (.ok (), s) := by
+  have hst : s.fs.stat p = none := by unfold Fs.stat; rw [h]
+  unfold makeWritable
+  rw [run_bind, DriverFacts.run_fsExists, absPath_nil hcwd, hst]
+  simp only [Option.isSome_none, Bool.and_false, Bool.false_eq_true, if_false]
+  rfl
 
 /-- the operations of the immediate write over a read-only target -/
 def roResultOps (p content : Bytes) (m : Nat) : List FsOp :=
@@ -116,15 +126,19 @@ theorem dirExists_set_file {fs : Fs} {p d b : Bytes} {m0 : Nat} (n : Node) (h : 
     unfold Fs.dirExists; rw [hd]; rfl
   · rw [Fs.dirExists_set_ne _ _ _ _ e]; exact hd
 
-/-- the operations of the immediate write over a read-only target with a backup -/
+/-- the operations of the immediate write over a read-only target with a backup: as over a writable one (`RunB.backupOps`) — there
+    is no `chmod` before the write, since the file is gone (moved to its backup name) when `make_writable` looks for it -/
 def roBackupOps (o : Options) (p content : Bytes) (m : Nat) : List FsOp :=
-  .chmod p (m ||| writeMask) :: .rename p (backupName o p) :: resultOps p content m
+  .rename p (backupName o p) :: resultOps p content m
 
-/-- `write_patched_result_to_file` with a backup due over an existing READ-ONLY regular file: the file is made writable, THEN
-    moved to its backup name — the backup has mode `m ||| writeMask` —, re-created, written, and set to the remembered mode -/
+theorem roBackupOps_eq (o : Options) (p content : Bytes) (m : Nat) : roBackupOps o p content m = backupOps o p content m := rfl
+
+/-- `write_patched_result_to_file` with a backup due over an existing READ-ONLY regular file: the file is moved to its backup name
+    AS IT IS — the backup keeps the mode `m0` of the file —; nothing is left to be made writable; the target is re-created, written,
+    and set to the remembered mode -/
 theorem run_writePatchedResult_readonly_backup {s : DState} {p b : Bytes} {m0 : Nat} (o : Options) (pt : Patch) (content : Bytes)
     (m : Nat) (perm : PermResult) (hfmt : (pt.format == .git) = false) (hop : (pt.operation == .add) = false)
-    (hnm : pt.newMode = 0) (hperm : perm.oldPerms = some m) (hnf : perm.needFix = true) (hcwd : s.cwd = [])
+    (hnm : pt.newMode = 0) (hperm : perm.oldPerms = some m) (hcwd : s.cwd = [])
     (h : s.fs.lookup p = some (.file b m0)) (hpne : p ≠ [])
     (hdir : s.fs.dirExists (parentOf p) = true)
     (hnot : s.backedUp.contains (backupName o p) = false)
@@ -132,20 +146,19 @@ theorem run_writePatchedResult_readonly_backup {s : DState} {p b : Bytes} {m0 : 
     (hf : s.faultAt = none) :
     (writePatchedResult o pt p perm true content).run s =
       (.ok (), { s with backedUp := s.backedUp ++ [backupName o p],
-                        fs := ((s.fs.erase p).set (backupName o p) (.file b (m ||| writeMask))).set p (.file content m),
+                        fs := ((s.fs.erase p).set (backupName o p) (.file b m0)).set p (.file content m),
                         trace := s.trace ++ roBackupOps o p content m,
                         opCount := s.opCount + (dirPrefixes (backupName o p)).length + (roBackupOps o p content m).length }) := by
   have hne : p ≠ backupName o p := fun e => backupName_ne o p e.symm
+  have hgone : ((s.fs.erase p).set (backupName o p) (.file b m0)).lookup p = none := by
+    rw [Fs.lookup_set_ne _ _ _ _ hne, Fs.lookup_erase_self]
   unfold writePatchedResult
   simp only [hfmt, hop, Bool.false_eq_true, if_false, Bool.false_and, hnm, if_true]
-  rw [run_bind, run_makeWritable_fix perm m hnf hperm hcwd h hf]
+  rw [run_bind, run_makeBackupFor_file o hcwd h hnot hdirs hbdir hf]
   simp only []
-  rw [run_bind, run_makeBackupFor_file o (by exact hcwd) (Fs.lookup_set_self _ _ _) (by exact hnot)
-    (dirsThere_set _ hdirs) (dirExists_set_file _ h hbdir) (by exact hf)]
-  simp only [Fs.erase_set]
-  rw [run_bind, run_writeFile_new content (by exact hcwd)
-    (by show (Fs.set _ _ _).lookup p = none
-        rw [Fs.lookup_set_ne _ _ _ _ hne, Fs.lookup_erase_self])
+  rw [run_bind, run_makeWritable_gone perm (by exact hcwd) (by exact hgone)]
+  simp only []
+  rw [run_bind, run_writeFile_new content (by exact hcwd) (by exact hgone)
     (by show Fs.dirExists (Fs.set _ _ _) _ = true
         rw [Fs.dirExists_set_ne _ _ _ _ (parentOf_ne_backupName o hpne),
           Fs.dirExists_erase_ne _ _ _ (fun e => by have := parentOf_length_lt hpne; rw [e] at this; omega)]
@@ -350,7 +363,8 @@ theorem processSection_readonly (H : VSection o fmt s p bytes m patch0 patch2 pa
     cases t <;> simp
 
 /-- **a clean section over a READ-ONLY target with `-b`, real run**: the target gets the rendered output and has its old mode
-    again; the backup holds the old bytes WITH MODE `m ||| writeMask` (the file was made writable before it was moved) -/
+    again; the backup holds the old bytes WITH THE OLD MODE `m` (the file is moved before `make_writable` runs, which then finds
+    nothing to make writable: no `chmod` before the write) -/
 theorem processSection_readonly_backup (H : VSection o fmt s p bytes m patch0 patch2 patch3 info par1 par2 r)
     (hro : m &&& writeMask = 0) (hnf : o.readOnly ≠ .fail)
     (hfail : r.failed = 0) (hmsgs : r.msgs = [])
@@ -358,7 +372,7 @@ theorem processSection_readonly_backup (H : VSection o fmt s p bytes m patch0 pa
     (hnot : s.backedUp.contains (backupName o p) = false)
     (hdirs : DirsThere s.fs (backupName o p)) (hbdir : s.fs.dirExists (parentOf (backupName o p)) = true) :
     ∃ s', (processSection o fmt).run s = (.ok true, s') ∧
-      s'.fs = ((s.fs.erase p).set (backupName o p) (.file bytes (m ||| writeMask))).set p
+      s'.fs = ((s.fs.erase p).set (backupName o p) (.file bytes m)).set p
                 (.file (render o.newlineOutput r.out) m) ∧
       s'.trace = s.trace ++ [.tmpCreate, .tmpUnlink] ++ [.tmpCreate, .tmpUnlink] ++
         roBackupOps o p (render o.newlineOutput r.out) m ∧
